@@ -27,6 +27,7 @@ class Pipe:
         self.frames_written = []
         self.cut_hit = False         # the connection broke at cut_at (as opposed to an orderly close)
         self.reset = False           # a socket reader sees the break as ECONNRESET instead of end of file
+        self.on_cut = None           # called once when the break happens (the peer died: the other direction breaks too)
 
     # writer side (file-like)
     def write(self, data):
@@ -38,20 +39,26 @@ class Pipe:
             room = self.cut_at - self.total_written
             if room <= 0:
                 self.total_written += len(data)
-                self.closed = self.cut_hit = True
+                self._cut()
                 self.sc.yield_point("write", self.name)
                 return
             if len(data) > room:
                 self.buf += data[:room]
                 self.total_written += len(data)
-                self.closed = self.cut_hit = True   # the connection breaks exactly here
+                self._cut()                         # the connection breaks exactly here
                 self.sc.yield_point("write", self.name)
                 return
         self.buf += data
         self.total_written += len(data)
         if self.cut_at is not None and self.total_written >= self.cut_at:
-            self.closed = self.cut_hit = True
+            self._cut()
         self.sc.yield_point("write", self.name)
+
+    def _cut(self):
+        first = not self.cut_hit
+        self.closed = self.cut_hit = True
+        if first and self.on_cut is not None:
+            self.on_cut()
 
     def flush(self):
         pass
@@ -135,7 +142,7 @@ class _Sock:
 class Pair:
     """sc: scheduler; remote_backend: 'thread' | 'main_thread_only'"""
 
-    def __init__(self, sc: S.Sched, remote_backend="thread", seed=0, cut_w2i=None, chunked=True, io_kind="popen"):
+    def __init__(self, sc: S.Sched, remote_backend="thread", seed=0, cut_w2i=None, chunked=True, io_kind="popen", cut_both=False):
         import execnet
         from execnet import gateway_base as gb
         from execnet.xspec import XSpec
@@ -153,6 +160,13 @@ class Pair:
         self.em_w = S.SchedExecModel(sc, remote_backend)
         self.i2w = Pipe(sc, "i2w", random.Random(rng.random()) if chunked else None)
         self.w2i = Pipe(sc, "w2i", random.Random(rng.random()) if chunked else None, cut_at=cut_w2i)
+        if cut_both:
+            # the peer DIED at the cut: what the survivor writes from then on meets a closed pipe (EPIPE), and the dead side reads no more
+            def _dead():
+                self.i2w.closed = True
+                self.i2w.reader_closed = True
+
+            self.w2i.on_cut = _dead
         if io_kind in ("socket", "socket_rst"):
             from execnet.gateway_socket import SocketIO
 
